@@ -19,6 +19,13 @@ def growF (f : Float32) (c : Nat) : Nat := (Float32.ofNat c * f).toUInt64.toNat
 /-- `ex >= q` with `q` a `size_t` converted to float -/
 def exGeF (f : Float32) (q : Nat) : Bool := f ≥ Float32.ofNat q
 
+
+/-- FNV-1a 64 over the UTF-8 text of a list as the full mode prints it (`phys=quiet`) -/
+def fnvList (xs : List Nat) : String :=
+  let text := ",".intercalate (xs.map toString)
+  let h := text.toUTF8.foldl (fun (h : UInt64) b => (h ^^^ b.toUInt64) * 1099511628211) 14695981039346656037
+  s!"#{h.toNat}"
+
 structure Sess where
   model : Option PQueue := none
   spec  : Option (List Nat) := none
@@ -27,6 +34,7 @@ structure Sess where
   exp   : Float32 := 2
   modc  : Nat := 0               -- comparator: 0 = numeric, 1 = v % 10, 2 = clamped 64-bit difference
   sparse : Bool := false         -- obs=sparse: the content sweep is printed by `observe` only
+  quiet : Bool := false          -- phys=quiet: the buffer is printed as a checksum, the full dump on `observe`
 
 def keyOf (modc : Nat) (v : Nat) : Nat := if modc == 1 then v % 10 else v
 /-- the harness comparators (deliberately not -1/0/1) -/
@@ -45,19 +53,31 @@ def obsS (modc : Nat) (f : Option (List Nat)) : String :=
   match f with
   | none => "abs=[]"
   | some f => s!"abs={fmtList ((Spec.PQ.drainFirst (cmpOf modc) f.length f).map (keyOf modc))}"
-def phys (r : Option PQueue) (out : Option Nat) : String :=
+def phys (r : Option PQueue) (out : Option Nat) (quiet : Bool := false) (dumpKey : String := "buf") : String :=
   match r with
   | none => "-"
-  | some r => s!"size={r.size} cap={r.capacity} buf={fmtList r.abs}" ++ (match out with | some v => s!" out={v}" | none => "")
+  | some r =>
+    -- the live slots: `r.abs` (= `firstN`, one list walk per slot) computed in one pass
+    let live := if r.size ≤ r.buf.length then r.buf.take r.size else r.abs
+    s!"size={r.size} cap={r.capacity} {if quiet then "buf" else dumpKey}={if quiet then fnvList live else fmtList live}" ++
+      (match out with | some v => s!" out={v}" | none => "")
+/-- the invariant, evaluated on an array (the `Decidable` instance walks the list once per index) -/
+def invFast (modc : Nat) (r : PQueue) : Bool :=
+  let a := r.buf.toArray
+  let cmp := cmpOf modc
+  r.size ≤ r.capacity && r.capacity == a.size && 0 < r.capacity &&
+    (List.range r.size).all fun i => i == 0 || 0 ≤ cmp (a.getD (Gen.ccParent i) 0) (a.getD i 0)
 def inv (modc : Nat) (r : Option PQueue) : Bool :=
-  match r with | none => true | some r => decide (r.Inv (cmpOf modc))
+  match r with | none => true | some r => if r.size ≤ 64 then decide (r.Inv (cmpOf modc)) else invFast modc r
 
 def lineS' (full : Bool) (hd : String) (s : Sess) : String :=
   if full then s!"S {hd} {obsS s.modc s.spec}" else s!"S {hd}"
-def lineM' (full : Bool) (hd : String) (s : Sess) (out : Option Nat) : String :=
-  s!"M {hd} {if full then obsM s.modc s.model else ""} | {phys s.model out} | {fmtMem s.mem} | {fmtFlags (inv s.modc s.model) s.mem}"
+def lineM'' (full quiet : Bool) (hd : String) (s : Sess) (out : Option Nat) : String :=
+  s!"M {hd} {if full then obsM s.modc s.model else ""} | {phys s.model out quiet (if s.quiet then "bufdump" else "buf")} | {fmtMem s.mem} | {fmtFlags (inv s.modc s.model) s.mem}"
+/-- `observe`: full content sweep and full buffer dump -/
+def lineM' (full : Bool) (hd : String) (s : Sess) (out : Option Nat) : String := lineM'' full false hd s out
 def lineS (hd : String) (s : Sess) : String := lineS' (!s.sparse) hd s
-def lineM (hd : String) (s : Sess) (out : Option Nat) : String := lineM' (!s.sparse) hd s out
+def lineM (hd : String) (s : Sess) (out : Option Nat) : String := lineM'' (!s.sparse) s.quiet hd s out
 
 def hdOut (modc : Nat) (st : Stat) (o : Option Nat) (quiet : Bool) : String :=
   match o with
@@ -73,6 +93,7 @@ def step (s : Sess) (c : Cmd) : Sess × String × String :=
     let f := if dflt then defaultFactor else effFactor (match c.str "exp" with | some t => parseF32 t | none => defaultFactor)
     let modc : Nat := match (c.str "cmp").getD "num" with | "mod" => 1 | "diff" => 2 | _ => 0
     let sparse := (c.str "obs").getD "full" == "sparse"
+    let quiet := (c.str "phys").getD "full" == "quiet"
     let invalid := cap = 0 || exGeF f (Gen.CC_MAX_ELEMENTS / cap) || cap > Gen.CC_MAX_ELEMENTS / PQueue.ptrSize
     let (sst, sp) : Stat × Option (List Nat) :=
       if invalid then (.errInvalidCapacity, none)
@@ -83,13 +104,13 @@ def step (s : Sess) (c : Cmd) : Sess × String × String :=
     let absurd := !dflt && cap * PQueue.ptrSize > 2 ^ 40
     -- a model buffer of more than 2^24 slots is not materialised: no model line for such sessions
     if !invalid && !absurd && cap > 16777216 then
-      let s' : Sess := { mem := m, exp := f, modc, sparse }
+      let s' : Sess := { mem := m, exp := f, modc, sparse, quiet }
       (s', lineS (fmtStat sst) { s' with spec := sp }, "M ? capacity too large for the executable model")
     else
     let m := if absurd && c.sched.isEmpty then s.mem.begin [false, true] else m
     let (st, r, m) := PQueue.new cap (exGeF f) triple m
     let m := if absurd && c.sched.isEmpty then { m with nrefused := 0 } else m
-    let s' : Sess := { model := r, spec := sp, scap := cap, mem := m, exp := f, modc, sparse }
+    let s' : Sess := { model := r, spec := sp, scap := cap, mem := m, exp := f, modc, sparse, quiet }
     (s', lineS (fmtStat sst) s', lineM (fmtStat st) s' none)
   | _ =>
   match s.model, s.spec with
